@@ -4,7 +4,7 @@ from pv.check import run_check
 from pv.entail import entails
 from pv.expr import Ctx, guard_facts, key_contains, key_subst
 from pv.facts import AnalysisBroken, strip_targs
-from pv.loops import enclosing_loops, loop_shape, stmts_of
+from pv.loops import enclosing_loops, loop_shape, stmts_of, no_early_exit
 from pv.throws import Throws
 from checks.c20 import fact_str
 
@@ -58,7 +58,7 @@ def body(chk, db, cfgname):
         raise AnalysisBroken("StatesClassification::compute: loop over [0, StateSize) containing the classification not found")
     L, shp = outer
     site = SC + "compute:state-loop"
-    if shp["start"] == ("lit", 0) and shp["rel"] == "<" and not shp["exits"]:
+    if shp["start"] == ("lit", 0) and shp["rel"] == "<" and no_early_exit(shp):
         r1.ok(site, f.loc(L), "states 0..StateSize-1 visited in order without early exit, so StateBlockIndex[s] belongs to state s", cfgname)
     else:
         r1.bad(site, f.loc(L), "the classification loop does not visit every state of [0, StateSize) in order (start %s, exits %s)" % (shp["start"], [e[1] for e in shp["exits"]]), cfgname)
@@ -216,7 +216,7 @@ def body(chk, db, cfgname):
                 okv = all(a[:2] == st[:2] for a in argk) and key_contains(objk, lambda y: y[:2] == nk[:2])
             Ls = enclosing_loops(f, S_)
             shp_n = loop_shape(f, ctx, Ls[0]) if Ls else None
-            fulln = shp_n is not None and shp_n["kind"] == "index" and shp_n["start"] == ("lit", 0) and not shp_n["exits"] and shp_n["var"][:2] == nk[:2]
+            fulln = shp_n is not None and shp_n["kind"] == "index" and shp_n["start"] == ("lit", 0) and no_early_exit(shp_n) and shp_n["var"][:2] == nk[:2]
             if okv and fulln:
                 r1.ok(site, f.loc(S_), "for every accepted operation n: QNumbers.set(n, <state| op_n |state>) on the state being classified", cfgname)
             elif okv:
